@@ -984,7 +984,7 @@ func main() {
 	runner.Main(runner.Check{
 		Property: "C17",
 		Level:    "exploration",
-		Rule:     "one case = one generated file descriptor: 1-3 services named from {Foo, foo_bar, Foo_Bar, fooBar, FOO2, Get_Item, A, A_B, B, Svc, x, Store_}, 0-5 methods named from {Get, get_item, Get_Item, listItems, PUT2, B, A_B, Sync, x, Do_, Stream, Close, Send, Recv} in every streaming combination, packages {a, a.b.c, my_pkg.v1, Zed}, request/response types among local messages, a nested message and google.protobuf.StringValue, protolib in {default, custom}, json on/off; plus fixed descriptors (services A_B and A with streaming method B and other definitions whose distinct proto names lead to one Go identifier - the generator may reject them, what it accepts must compile; pairs of services whose <service>_<method> strings coincide, e.g. Store_Item.Get and Store.Item_Get; messages imported from another Go package named context, drpc, errors, io, drpcerr, msgs or like a receiver/parameter/variable of the generated functions (c, x, in, ctx, srv, in1, in2, out, m, err, stream, s, mux, impl, cc) - compile and vet only). The plugin built from /repo generates the code; go build, go vet and a driver derived from the generated interfaces by go/parser run every method of the generated client against the generated server through drpcmux over a real connection. Non-trivial: descriptors with at least one method that the generator accepted. Distinct: by descriptor text.",
+		Rule:     "one case = one generated file descriptor: 1-3 services named from {Foo, foo_bar, Foo_Bar, fooBar, FOO2, Get_Item, A, A_B, B, Svc, x, Store_}, 0-5 methods named from {Get, get_item, Get_Item, listItems, PUT2, B, A_B, Sync, x, Do_, Stream, Close, Send, Recv} in every streaming combination, packages {a, a.b.c, my_pkg.v1, Zed}, request/response types among local messages, a nested message and google.protobuf.StringValue, protolib in {default, custom}, json on/off; plus fixed descriptors (services A_B and A with streaming method B and other definitions whose distinct proto names lead to one Go identifier - the generator may reject them, what it accepts must compile; pairs of services whose <service>_<method> strings coincide, e.g. Store_Item.Get and Store.Item_Get; messages imported from another Go package named context, drpc, errors, io, drpcerr, msgs or like a receiver/parameter/variable of the generated functions (c, x, in, ctx, srv, in1, in2, out, m, err, stream, s, mux, impl, cc) - compile and vet only). The plugin built from /repo generates the code; go build, go vet and a driver derived from the generated interfaces by go/parser run every method of the generated client against the generated server through drpcmux over a real connection. Non-trivial: descriptors with at least one method that the generator accepted. Distinct: by descriptor text. Clash descriptors include a message named like each exported type the generator declares (DRPCFoo_BarStream, DRPCFoo_BarClient, DRPCFooServer, DRPCFooUnimplementedServer, DRPCFooDescription) beside a method of each of the four shapes.",
 		Assumptions: []string{
 			"protoc is not installed: both plugins are driven with hand-built CodeGeneratorRequests; protoc-gen-go comes from the module cache (v1.27.1)",
 			"two methods of one service, or two services, whose names differ only in case/underscores, and the gogo protolib (no gogo message generator available offline), are excluded",
